@@ -185,7 +185,7 @@ def rule_eq_totality(check, rule, rule_hash):
                                 witness='hash(sigtools.signature(f)) raises TypeError: unhashable type')
             else:
                 check.holds(rule_hash, st, '%s: no hashable base to stay compatible with' % ci.name, key=key, nontrivial=False)
-    check.floor(rule, 'classes overriding __eq__', n, 3)
+    check.floor(rule, 'classes overriding __eq__', n, 1)
 
 
 def _falsy_is_legit(ci, pname):
@@ -647,7 +647,7 @@ def rule_evaluation_context(check, rule):
                     check.violation(rule, site_of(up, node), 'the pre-evaluated wrapper is built from %s' % ', '.join(show(a) for a in args), key=key)
             if ok:
                 check.holds(rule, site_of(up, node), 'upgrade -> %s wrapper' % vclass, key=key, guards=' & '.join(show_lit(l) for l in p.lits)[:200])
-    check.floor(rule, 'paths of UpgradedAnnotation.upgrade', n, 5)
+    check.floor(rule, 'paths of UpgradedAnnotation.upgrade', n, 3)
     # _is_co_flag_enabled table
     fi = repo.func(SIG + ':_is_co_flag_enabled')
     check.analysed(fi)
@@ -747,7 +747,7 @@ def rule_no_rewrap_of_existing(check, rule):
                     else:
                         check.holds(rule, site_of(fi, e.node), 'preevaluated(%s): a value supplied by the caller, not read from an existing parameter'
                                     % show(arg)[:50], key=key)
-    check.floor(rule, 'calls of UpgradedAnnotation.preevaluated', n_calls, 2)
+    check.floor(rule, 'calls of UpgradedAnnotation.preevaluated', n_calls, 1)
 
 
 def rule_annotation_pairing_sites(check, rule):
@@ -852,4 +852,4 @@ def rule_sibling_eq(check, rule):
                                 key=key, witness='a postponed and a pre-evaluated annotation with the same value compare unequal one way round')
             else:
                 check.holds(rule, st, '%s keeps the value-based __eq__ of %s' % (ci.name, fam.name), key=key)
-    check.floor(rule, 'subclasses of a package class defining __eq__', n, 3)
+    check.floor(rule, 'subclasses of a package class defining __eq__', n, 1)
